@@ -121,6 +121,22 @@ func deepCopyEvent(ev eval.Event) eval.Event {
 	return c
 }
 
+// scribble is a consumer writing to an event it owns: every slot of the stack
+// snapshot and of the argument list is overwritten, and one element appended.
+func scribble(ev eval.Event) {
+	const poison = "overwritten-by-the-consumer"
+	over := func(s []eval.Value) {
+		for i := range s {
+			s[i] = poison
+		}
+		_ = append(s, poison)
+	}
+	over(ev.Stack)
+	if d, ok := ev.Data.(eval.OpEventData); ok {
+		over(d.Params)
+	}
+}
+
 func eventsEqual(a, b eval.Event) bool {
 	if a.EventType != b.EventType || len(a.Stack) != len(b.Stack) {
 		return false
